@@ -2,7 +2,7 @@
    Gives a structural sufficient condition for the side condition of wf_tagged
    (enc_sat (TTagged n t) v (raw_item d)): see wf_tagged_rw at the end. *)
 From FDO Require Import Cbor.Typed Cbor.DecFacts.
-From WIP Require Import RoundTripMono RoundTripHead RoundTripWf RoundTripCheck RoundTrip.
+From FDO Require Import Cbor.RoundTripMono Cbor.RoundTripHead Cbor.RoundTripWf Cbor.RoundTripCheck Cbor.RoundTrip.
 Local Open Scope nat_scope.
 
 Definition intraw (z : Z) : Prop := (-18446744073709551616 <= z < 18446744073709551616)%Z.
@@ -11,8 +11,8 @@ Definition short (a : bytes) : Prop := (N.of_nat (length a) < 100000)%N.
 (* rw d t v : the encoding of v at type t is a raw item when scanned from depth d *)
 Inductive rw : nat -> ty -> val -> Prop :=
 | rw_int d t z : (match t with TInt _ | TAny | TLabel => True | _ => False end) -> intraw z -> rw d t (VInt z)
-| rw_bool d t b : rw d t (VBool b)
-| rw_null d t : rw d t VNull
+| rw_bool d t b : (match t with TBool | TAny => True | _ => False end) -> rw d t (VBool b)
+| rw_null d t : (match t with TPtr _ | TAny | TDer _ | TTimestamp => True | _ => False end) -> rw d t VNull
 | rw_bytes d t a :
     (match t with TBytes | TFixed _ | TBWBytes | TDer _ | TAny => True | _ => False end) -> short a -> rw d t (VBytes a)
 | rw_text d t a : (match t with TText | TLabel | TAny => True | _ => False end) -> short a -> rw d t (VText a)
@@ -137,14 +137,16 @@ Proof.
     destruct t; try contradiction; cbn [enc] in Henc.
     + injection Henc as <-; now apply raw_ev_int.
     + injection Henc as <-; now apply raw_ev_int.
-    + revert Henc; destruct (Z.eqb_spec z 0); intros Henc; injection Henc as <-; [|now apply raw_ev_int].
+    + revert Henc; destruct (Z.eqb_spec z 0); intros Henc;
+        [assert (Eb : b = [byte_of_N 96]) by congruence | assert (Eb : b = enc_int z) by congruence]; subst b;
+        [|now apply raw_ev_int].
       change [byte_of_N 96] with (head 3 (N.of_nat (length (@nil byte))) ++ []).
       apply raw_ev_str; [now right|unfold short; cbn; lia].
   - (* bool *)
-    destruct t; cbn [enc] in Henc; try discriminate; injection Henc as <-;
+    destruct t; try contradiction; cbn [enc] in Henc; injection Henc as <-;
       (destruct b0; [change 245%N with (224 + 21)%N|change 244%N with (224 + 20)%N]; apply raw_ev_simple; lia).
   - (* null *)
-    destruct t; cbn [enc] in Henc; try discriminate; injection Henc as <-;
+    destruct t; try contradiction; cbn [enc] in Henc; injection Henc as <-;
       change 246%N with (224 + 22)%N; apply raw_ev_simple; lia.
   - (* bytes *)
     destruct t; try contradiction; cbn [enc] in Henc; injection Henc as <-; apply raw_ev_str; auto.
@@ -205,7 +207,7 @@ Proof.
     + destruct (enc fe (TMap TLabel TAny) (VMap (p :: m))) as [a| | |] eqn:EA; cbn [bind] in Henc; try discriminate.
       injection Henc as <-. apply raw_ev_str; [now left|]. match goal with Hs : enc_sat _ _ _ |- _ => exact (Hs _ _ EA) end.
   - (* timestamp *)
-    cbn [enc] in Henc. injection Henc as <-. apply raw_ev_tag; [unfold two64; lia|assumption|now apply raw_ev_int].
+    cbn [enc] in Henc. injection Henc as <-. apply (raw_ev_tag d 1%N (enc_int z)); [unfold two64; lia|assumption|now apply raw_ev_int].
 Qed.
 
 Theorem enc_raw fe : forall d t v b,
@@ -227,4 +229,21 @@ Proof.
   intros fe a E. eapply enc_raw_item; [|exact E]. now apply rw_tagged.
 Qed.
 
+
+(* non-vacuity of wf_tagged_rw: the tagged struct of RoundTrip.Examples.ex_tagged, without running dec_raw *)
+Example ex_tagged_rw :
+  wf Examples.OD 0 (TTagged 18 Examples.st1) (VList [VInt 5; VText []; VBool true]).
+Proof.
+  apply wf_tagged_rw.
+  - unfold two64. lia.
+  - apply (wfb_sound Examples.OD 50). vm_compute. reflexivity.
+  - unfold max_depth. lia.
+  - apply (rw_struct 1 _ _ [(false, TInt KU8, VInt 5); (true, TText, VText []); (false, TBool, VBool true)]).
+    + unfold max_depth. lia.
+    + reflexivity.
+    + cbn. lia.
+    + cbn [omit_pass andb is_empty_val Z.eqb]. repeat constructor; cbn; unfold intraw; try lia; exact I.
+Qed.
+
 Print Assumptions enc_raw.
+Print Assumptions wf_tagged_rw.
